@@ -285,9 +285,30 @@ class Layout:
         return out
 
 
+def custom_method(fun, x0, args=(), **unknown):
+    """a user-supplied minimiser (scipy's `method=callable` protocol): a few sweeps of coordinate-wise golden-section steps;
+    deterministic, gradient-free, uses only `fun`"""
+    from scipy import optimize as spopt
+
+    x = np.array(x0, dtype=float)
+    nfev = 0
+    for sweep in range(3):
+        for i in range(x.size):
+            def g(t, i=i):
+                z = x.copy()
+                z[i] = t
+                return fun(z, *args)
+
+            r = spopt.minimize_scalar(g, bracket=(x[i] - 1.0, x[i] + 1.0), method="golden", options={"maxiter": 20})
+            x[i] = r.x
+            nfev += r.nfev
+    return spopt.OptimizeResult(x=x, fun=fun(x, *args), nfev=nfev + 1, nit=3, success=True, status=0)
+
+
 def reference_minimize(env, model, func, x0, args, method, kw, layout):
     jax, spopt = env.jax, env.spopt
-    use_grad = model.call("routing", method=method)
+    # a callable method is not a string: the wrapper passes no gradient (`isinstance(method, str) and …`)
+    use_grad = model.call("routing", method=method) if isinstance(method, str) else model.call("routing", callable=True)
     func_s = (lambda s, *a: func(layout.join(s), *a)) if layout.cplx else func
 
     if use_grad:
@@ -407,6 +428,8 @@ class _SubCtx:
 def run_minimize_case(env, ctx, model, case, known_id=None, func_override=None):
     """one comparison solver.minimize  vs  direct scipy on the model's layout.  `case` is JSON-able."""
     form, objn, seed, method, scen = case["form"], case["obj"], case["seed"], case["method"], case["scenario"]
+    if method == "@custom":
+        method = custom_method
     args = tuple(case.get("args", ()))
     x0, t, w = make_data(env, form, seed)
     func = func_override if func_override is not None else make_objective(env, objn, t, w)
@@ -479,8 +502,8 @@ def run_minimize_case(env, ctx, model, case, known_id=None, func_override=None):
             except Exception:  # noqa: BLE001
                 effect = True  # cannot even run without it
     nontrivial = not (form["dtype"] == "float64" and not form["isblk"] and len(form["shapes"][0]) == 1 and scen == "default")
-    ctx.case({k: case[k] for k in ("form", "obj", "method", "scenario")}, (form_tag(form), objn, method, scen, len(args)) if nontrivial else None)
-    ctx.count(f"method={method}")
+    ctx.case({k: case[k] for k in ("form", "obj", "method", "scenario")}, (form_tag(form), objn, case["method"], scen, len(args)) if nontrivial else None)
+    ctx.count(f"method={method if isinstance(method, str) else '@custom (callable)'}")
     ctx.count(f"scenario={scen}")
     ctx.count(f"form={'blk' if form['isblk'] else 'arr'}/{form['dtype']}")
     ctx.count(f"uses-gradient={use_grad}")
@@ -529,7 +552,7 @@ def run_minimize_case(env, ctx, model, case, known_id=None, func_override=None):
                 problems.append(f"callback sequences differ ({len(rec_impl)} vs {len(rec_ref)} calls)")
     if problems:
         fail = {
-            "call": f"solver.minimize(func[{objn}], x0[{form_tag(form)}], args={args}, method={method!r}, {scen})",
+            "call": f"solver.minimize(func[{objn}], x0[{form_tag(form)}], args={args}, method={(method if isinstance(method, str) else 'custom_method')!r}, {scen})",
             "problems": problems,
             "scico": ({"x": describe(env, implr[1].x), **res_fields(implr[1])} if implr[0] == "ok" else {"err": implr[1]}),
             "direct_scipy_on_flattened_problem": ({"x": describe(env, layout.build(refr[1].x)), **res_fields(refr[1])} if refr[0] == "ok" else {"err": refr[1]}),
@@ -705,6 +728,10 @@ def section_minimize(env, ctx, model):
             for fi in dict.fromkeys(forms):
                 case = {"form": FORMS[fi], "obj": objs[(k + fi) % 3], "seed": int(rng.integers(0, 2**31)), "method": method, "scenario": scen}
                 run_minimize_case(env, ctx, model, case)
+    # a callable method (scipy's custom-minimiser protocol): no gradient is passed, containers are handled as for the built-in solvers
+    for fi in (range(nf) if ctx.thorough else [1, 4, 6, 8]):
+        case = {"form": FORMS[fi], "obj": objs[fi % 3], "seed": int(rng.integers(0, 2**31)), "method": "@custom", "scenario": "default"}
+        run_minimize_case(env, ctx, model, case)
     # extra arguments, real and complex starts
     for fi in (range(nf) if ctx.thorough else [0, 4, 6, 8]):
         for method in ("L-BFGS-B", "Nelder-Mead"):
